@@ -82,6 +82,13 @@ func handleMore(cmd string, a []string) (string, bool) {
 		out := hx(lb.buf.Bytes())
 		lb.mu.Unlock()
 		return out, true
+	case "parsebool":
+		// parsebool <hex value>: strconv.ParseBool (what pflag-independent code in filter_value.go applies to --tags=VALUE)
+		b, err := strconv.ParseBool(string(arg(a[0])))
+		if err != nil {
+			return "ERR", true
+		}
+		return strconv.FormatBool(b), true
 	case "rune":
 		// rune <hex bytes>: utf8.DecodeRune on the bytes -> "<code point> <width>" (what Go's regexp matcher steps by)
 		r, w := utf8.DecodeRune(arg(a[0]))
